@@ -5,10 +5,11 @@ class C03(ConnProp):
     id = "C03"
     harness = "c03"
     props_file = "Properties/C03.v"
+    exhaustive_len = 5    # every commit point of every case is restarted in the thorough tier
     monitor_text = ("at some instant the stored position (what a restart opens the source with) is past an unhandled "
                     "record, or behind what the plugin had already been told to discard")
     rule = ("the C02 schedules; additionally fresh connector services are initialised on a copy of the store as it "
-            "was after commit points (quick: first, last and 8 random; thorough: all) and the position the plugin's "
+            "was after commit points (quick: first, last and 8 random; thorough: all; the exhaustive part of the thorough tier stops at length 5) and the position the plugin's "
             "Open receives is compared with the log prefix. distinct = distinct input JSON; non-trivial = at least "
             "one engine ack, one successful commit and one plugin ack in the log")
     assumptions = ConnProp.assumptions + [
